@@ -12,6 +12,50 @@ PENDING_REASON = "not claimed yet: the runtime monitor for this property is stil
 # properties that are deliberately not claimed, with the reason (kept in sync with DESIGN.md section 8)
 NOT_CLAIMED = {}
 
+
+TECH = {
+ "C01": ("assignment-first generator + reference expectation; oracle over every read path of the returned Args (bounded-exhaustive decision-tree walk for catalogue formats, seeded random for large ones)",
+         "held on every generated line: the generator derives the command line from the assignment, so the expected result is known by construction and is computed without calling the parser"),
+ "C02": ("exhaustive token-soup enumeration + single-fault mutation of valid lines; oracle on exception class and strict/lenient agreement",
+         "exception containment is decided on the complete set of token sequences up to the stated length over an adversarial alphabet; documented errors on lines with exactly one planted fault"),
+ "C03": ("reference walk over the configuration tree vs the real resolver, with recording handlers for the nothing-run clause",
+         "selection, resolved arguments and error messages compared with an independent walk over generated trees and line shapes"),
+ "C04": ("outcome matrix through Application.run with recording handlers/streams + sys.monitoring failpoint injection at every line inside the handler's extent",
+         "fault enumeration: every (file, line) executed while the handler is on the stack is turned into a failpoint for three exception types; status, report and handler-count oracles"),
+ "C05": ("history monitor: one parser instance vs pristine-world reference per request, deep snapshots of argv / RawArgs / format listings around every call",
+         "all ordered pairs/triples of a stratified request catalogue plus random histories; purity means equal outcome and unchanged inputs"),
+ "C06": ("history monitor against a plain-list model: builder, built format and model answer every public query; atomic rejection by before/after snapshots; constructor parity",
+         "bounded-exhaustive operation sequences over a colliding name pool on 6 base stacks"),
+ "C07": ("exhaustive enumeration of flag words and short names against validity predicates written from the statement; conversion round-trips",
+         "the whole flag space (2^13 x 6, 2^11 x 3) is run; names up to length 4/5 over a small alphabet"),
+ "C08": ("exhaustive short strings under a sys.monitoring step budget (logical termination monitor) + quote/unquote inverse over generated token lists + string/argv equivalence through parser and resolver",
+         "totality and termination on every string up to length 5/7; inverse law on generated token lists with every kind of whitespace separator"),
+ "C09": ("io_factory tap + recording handlers and streams; variants of valid lines with switches inserted at every kind of position, control placement after '--'",
+         "per-switch clauses judged on I/O settings actually built for the run and on the bytes written"),
+ "C10": ("reflection-discovered writing methods x complete truth table (verbosity x flags x quiet x formatter x object kind), bytes observed at a recording stream",
+         "exhaustive table; a method added later is picked up by the probing step"),
+ "C11": ("markup AST generator with per-character SGR interpreter; exhaustive colour/attribute table through three supply routes; reflection over *_line methods; nested indentation scopes with exceptional exits",
+         "four boundary monitors at formatter/stream level"),
+ "C12": ("history monitor against a list model; listeners are logging closures; prefix-closed exhaustive enumeration incl. cache-filling queries",
+         "every sequence up to length 4/5 over 20 operations plus random long histories"),
+ "C13": ("unique-substring membership oracle over rendered help pages, width bound, and byte comparison of 'help <path>' with '<path> --help' through Application.run",
+         "generated configurations with every element named uniquely as a substring"),
+ "C14": ("per-column alphabets attribute every rendered character to its column; oracles for width, rectangle, border offsets / column spans, per-column text preservation, table immutability",
+         "seeded random tables over length-class profiles that drive the width distribution"),
+ "C15": ("terminal emulator (deferred auto-wrap) replaying the recorded byte stream vs a stacked-sections screen model; plain degradation oracle",
+         "enumeration of all applicable operation sequences to depth 4/5 at two widths plus random histories"),
+ "C16": ("virtual clock installed before clikit is imported; frames = writes between flushes, stamped with virtual time; state model + per-frame clauses; emulator residue check",
+         "all operation sequences to length 4/5 on a configuration grid plus random sequences to length 60"),
+ "C17": ("reused-vs-fresh application histories; triple renders; creation-order experiments each in a pristine subprocess",
+         "all histories of length 2(-3) over an 18-line catalogue, with fresh and reused RawArgs objects"),
+ "C18": ("scripted InputStream with read budget (logical termination), recording outputs, dialogue model; PATH isolated so that the line-reading path is taken",
+         "all answer scripts up to length 2/3 over a 15-entry alphabet x 132 configurations"),
+ "C19": ("deterministic token-passing scheduler substituted for threading/time (every write, sleep, event op, start, join is a scheduling point); depth-first schedule enumeration with a pre-emption bound, random schedules, trace replay on the emulator; independent real-thread stress engine",
+         "all schedules within the pre-emption bound for each program; verdicts on logical steps, wall-clock only as an inconclusive watchdog"),
+ "C20": ("generated failing modules (unique files) rendered at every verbosity; snippet oracle from Python's own tokenize; ignore-filter oracle; highlighter over a corpus of real files",
+         "seeded random modules, messages, recursion depths and I/O capabilities; corpus = repository, tests, 300 stdlib modules"),
+}
+
 props = [json.loads(l)["id"] for l in open(os.path.join(ROOT, "properties.jsonl"))]
 checks = []
 na = []
@@ -30,11 +74,11 @@ for pid in props:
         "engine": "rv",
         "level_claimed": {
             "category": getattr(m, "LEVEL", "exploration"),
-            "text": getattr(m, "LEVEL_TEXT", "An oracle written from the property statement judges every execution of the real code that the workload produces; held means held on the executions counted in the evidence file."),
+            "text": "Runtime monitoring: " + TECH[pid][1] + ". The oracle observes executions of the real code in /repo/src; 'held' means held on the executions counted in the evidence file, nothing is claimed about inputs, histories or schedules the workload did not produce.",
             "design_ref": "DESIGN.md section 4, %s" % pid,
         },
-        "level_note": getattr(m, "LEVEL_NOTE", "Trusted: the oracle / reference model in rv/checks/%s.py, the generators in rv/gen, CPython 3.12 and the third-party packages pastel, pylev and crashtest as installed in /venv." % pid.lower()),
-        "technique": getattr(m, "TECHNIQUE", "runtime monitoring: oracle over generated and enumerated executions of the real code"),
+        "level_note": "Trusted: the oracle / reference model in rv/checks/%s.py, the generators in rv/gen and instruments in rv/instruments, CPython 3.12 and the third-party packages pastel, pylev and crashtest as installed in /venv. Assumptions the oracle makes are listed in the evidence file (assumptions) and in DESIGN.md sections 4 and 9." % pid.lower(),
+        "technique": "runtime monitoring: " + TECH[pid][0],
     }
     checks.append(c)
 
